@@ -10,6 +10,7 @@ from vlib.runner import SubProp, Violation
 from mir_eval import util
 
 PROPERTY_ID = "C13"
+SCALE = (3, 4)   # budget multiplier (quick, thorough) applied to the n=(...) of every generated sub-property
 LEVEL = "exploration"
 RULE = ("labeled interval arrays on a dyadic lattice (contiguous or with gaps), crop points drawn from a candidate set that makes "
         "coincidences with boundaries likely; sample grids containing boundaries, duplicates and outside points; "
